@@ -13,7 +13,7 @@ PROP = dict(
                 "are exactly path.Join(prefix, tag name) of the tagged visible fields (prefix/name on clean inputs, the bare name without prefix), nothing else is "
                 "requested and every unknown one is; each field receives the current value of exactly its own name (fresh buffer for []byte, text, handle of this store "
                 "bound to that name, UnmarshalBinary called with exactly the bytes, json.Unmarshal of the bytes); untagged and invisible fields are untouched; a []byte "
-                "field never holds a store buffer, so overwriting it cannot change what any store state serves; non-pointer/non-struct arguments, empty names, unsupported "
+                "field never holds a store buffer, so overwriting it cannot change what any store state serves; non-pointer/non-struct arguments (incl. the untyped nil and nil struct pointers of any shape), empty names, unsupported "
                 "types without the json verb and structs without tagged fields - and only those - are rejected before any request; every field is processed whatever the "
                 "others do, the reported errors are exactly the failing fields, and whether a field fails depends on that field alone. Tied to the code by run-time generated "
                 "struct types driven through NewStore(Structs) and ParseFields+Apply (with and without AllowLookup) against a scripted StoreClient; requested names, "
@@ -23,9 +23,9 @@ PROP = dict(
                 "encoding/json makes of (field type, bytes) and whether UnmarshalBinary accepts given bytes (both recorded by the harness from the Go library / the harness's "
                 "own unmarshaler). The theorems assume the store invariant Inv (proved preserved by every locked step in StoreInv.v); that the store built by NewStore "
                 "satisfies it is exercised by the run, not proved here. Not modelled: the allocation of a nil pointer-to-unmarshaler field at parse time, deeper embedding, "
-                "embedded pointers, tagged embedded members, nil arguments (docs/C20.md, Findings)."),
+                "embedded pointers (a tagged field promoted through a nil embedded pointer still panics in reflect: outside the domain, docs/C20.md), tagged embedded members. Nil arguments (untyped nil, nil struct pointer) are modelled and compared since the F9 repair."),
     rule=("random struct shapes built with reflect.StructOf (0-8 members, 12 field types incl. named BinaryUnmarshaler types by value/nil pointer/set pointer, 14% members are "
-          "structs embedded by value with colliding promoted names; tags name / name,json / other verbs / empty names; 70% of shapes forced valid), clean prefixes (30% empty, "
+          "structs embedded by value with colliding promoted names; tags name / name,json / other verbs / empty names; 70% of shapes forced valid; argument: pointer 86%, struct by value 4%, non-struct 4%, untyped nil 2%, nil pointer to the struct 4%), clean prefixes (30% empty, "
           "else 1-3 segments) and names, random values incl. empty, non-UTF-8, valid and invalid JSON and values the unmarshaler refuses; 40% through NewStore(Structs), 60% "
           "ParseFields+Apply on a store with a random declared subset, AllowLookup on/off, 12% of names missing at the service; plus path.Join pairs; one case = one run; "
           "non-trivial if the argument is a struct pointer with at least two tagged leaf fields and the run got as far as Apply; distinct by input"),
